@@ -17,7 +17,7 @@
 
 namespace sim {
 
-inline Ctx* g_ctx = nullptr; // current run (single-threaded worlds)
+inline thread_local Ctx* g_ctx = nullptr; // current run (per thread: the threads world gives every thread its own)
 inline void (*g_yield)(const char* where) = nullptr; // scheduler hook (threads world)
 inline void (*g_ev_hook)(const char* line) = nullptr; // per-thread logging hook
 
@@ -82,7 +82,7 @@ struct LiveRegion
   int id;
 };
 inline thread_local std::vector<LiveRegion> g_regions; // per thread (threads world: own objects only)
-inline std::vector<Region> g_graveyard; // arenas of destroyed sandboxes, released at run end
+inline thread_local std::vector<Region> g_graveyard; // arenas of destroyed sandboxes, released at run end
 inline thread_local int g_next_inst_id = 0;
 
 inline const LiveRegion* region_of(const void* p)
@@ -458,6 +458,7 @@ protected:
 
   inline bool impl_is_pointer_in_sandbox_memory(const void* p)
   {
+    SIM_YIELD("impl_predicate"); // the core calls this while it holds the live-sandbox list lock (shared)
     auto u = reinterpret_cast<uintptr_t>(p), b = reinterpret_cast<uintptr_t>(mem.base);
     return mem.base != nullptr && u >= b && u - b < mem.size;
   }
